@@ -355,6 +355,8 @@ impl Check for C12 {
         let eo: Vec<Case> = super::evalorder::cases(600).into_iter().filter(|c| c.meta.contains("`r = {") || c.meta.contains("`o[") || c.meta.contains(".k")).collect();
         ctx.judge(eo, |c, r, o| self.oracle(c, r, o))?;
         ctx.judge(extra_cases(), |c, r, o| self.oracle(c, r, o))?;
+        let sp: Vec<Case> = super::evalorder::SELF_TARGET_PROGRAMS.iter().filter(|p| p.contains('.')).map(|p| Case::new(p.to_string(), 601, "property targets written through `.` and `[]` in one pattern".to_string())).collect();
+        ctx.judge(sp, |c, r, o| self.oracle(c, r, o))?;
         ctx.guard("keys were inserted in descending order", g_order);
         ctx.extra.insert(
             "bounds".into(),
